@@ -944,6 +944,7 @@ func (t *Tokenizer) readBacktickIdentifier() (models.Token, error) {
 			return models.Token{
 				Type:  models.TokenTypeIdentifier, // Backtick identifiers are identifiers
 				Value: buf.String(),
+				Quote: '`', // keeps a quoted word distinguishable from a bare word / keyword
 			}, nil
 		}
 
